@@ -9,7 +9,9 @@ import (
 	"bytes"
 	"encoding/hex"
 	"fmt"
+	"os"
 	"sort"
+	"strconv"
 	"time"
 
 	"github.com/lianxiangcloud/linkchain/libs/common"
@@ -43,9 +45,17 @@ func init() {
 			"restart = new trie.Database over the same disk db: only roots flushed with TrieDB.Commit survive; Dereference/garbage collection of the memory layer is not exercised",
 			"single-goroutine use (Trie is documented as not safe for concurrent use)",
 		},
-		QuickRuns: 4000, ThoroughRuns: 150000, QuickBudget: 50 * time.Second, ThoroughBudget: 15 * time.Minute,
-		Run: run, MaxProcs: 1, RunsPerProcess: 2000, RunTimeout: 120 * time.Second,
+		QuickRuns: 20000, ThoroughRuns: 250000, QuickBudget: 50 * time.Second, ThoroughBudget: 15 * time.Minute,
+		Run: run, MaxProcs: envInt("TRIERIG_MAXPROCS", 1), RunsPerProcess: 2000, RunTimeout: 120 * time.Second,
 	})
+}
+
+// envInt lets the determinism check vary GOMAXPROCS of the workers.
+func envInt(name string, def int) int {
+	if v, err := strconv.Atoi(os.Getenv(name)); err == nil && v > 0 {
+		return v
+	}
+	return def
 }
 
 // ---------------------------------------------------------------- disk with a hole
@@ -662,8 +672,12 @@ func (s *sim) opFlush() {
 }
 
 func (s *sim) opCap() {
-	s.tracef("triedb.Cap(0)")
-	if err := s.tdb.Cap(0); err != nil {
+	limit := 0
+	if s.ops.Bool(1, 2) {
+		limit = s.ops.Range(100, 3000) // partial flush of the oldest nodes
+	}
+	s.tracef("triedb.Cap(%d)", limit)
+	if err := s.tdb.Cap(common.StorageSize(limit)); err != nil {
 		s.violate("lookup", "flush/error", "TrieDB.Cap failed: %v", err)
 	}
 }
